@@ -149,7 +149,7 @@ def _objects():
         'quad_b': lambda: fem.MeshQuad.init_tensor(np.array([0., 0.375, 1.]), np.array([0., 0.75, 1.])),
         'tet_a': lambda: fem.MeshTet().refined(1),
         # strongly stretched cells: the containing cell is often not among the nearest centroids (finder fallback)
-        'tri_s': lambda: fem.MeshTri.init_tensor(np.linspace(0, 1, 25), np.linspace(0, 24, 3)),
+        'tri_s': lambda: fem.MeshTri.init_tensor(np.linspace(0, 1, 3), np.linspace(0, 1, 41)),
         'tet_s': lambda: fem.MeshTet.init_tensor(np.linspace(0, 1, 9), np.linspace(0, 8, 2), np.linspace(0, 8, 2)),
         'tri2_a': lambda: fem.MeshTri2.init_circle(1),
         # elements
@@ -302,7 +302,8 @@ def _ops():
         ('conn_again', ['tri_t'], lambda m: [m.t, m.facets, m.t2f, m.f2t, m.boundary_nodes()]),
         ('retag', ['tri_t'], lambda m: m.with_boundaries({'left': lambda x: x[1] == 0, 'new': lambda x: x[0] == 1})),
         ('resub', ['tri_t'], lambda m: m.with_subdomains({'low': lambda x: x[0] < 0.5, 'hi': lambda x: x[1] > 0.5})),
-        ('finder_far', ['tri_s'], lambda m: m.element_finder()(np.array([0.51, 0.02, 0.98]), np.array([11.5, 23.0, 0.5]))),
+        ('finder_far', ['tri_s'], lambda m: m.element_finder()(np.array([0.3125, 0.640625, 0.765625, 0.765625]),
+                                                                np.array([0.046875, 0.90625, 0.71875, 0.390625]))),
         ('finder_vertices', ['tri_s'], lambda m: m.element_finder()(m.p[0, ::7], m.p[1, ::7])),
         ('finder_edges', ['tri_s'], lambda m: m.element_finder()(m.p[:, m.facets[:, ::9]].mean(axis=1)[0],
                                                                   m.p[:, m.facets[:, ::9]].mean(axis=1)[1])),
